@@ -2,7 +2,7 @@
    pending pin block compiles as it stands (written by driver/r2c2_mkpintest.py).  The coordinator appends the blocks to
    Props/CXX.v at merge. *)
 From Coq Require Import List Arith ZArith.
-From OV Require Import Base.Panic Base.Arith.
+From OV Require Import Base.Panic Base.Arith Model.Roots.
 Import ListNotations.
 
 (* ======================================================================== C03_r2c2.v.txt *)
@@ -37,6 +37,19 @@ Theorem model_is_source_C09_Iter : forall F : SArith, @SrcEqIter.model_is_source
 Proof. intros F. exact SrcEqIter.model_is_source_Iter_lemma. Qed.
 Check model_is_source_C09_Iter : forall F : SArith, @SrcEqIter.model_is_source_Iter F.
 Print Assumptions model_is_source_C09_Iter.
+
+(* ======================================================================== C10_r2c2.v.txt *)
+(* ---- tie of the model to the source of this run (package r2c2): gen/SrcRoots.v is regenerated from src/polynomial/mod.rs
+   (quadratic_solve, cubic_solve, laguer, poly_solve and the two public `roots`) by driver/rust2coq.py on every check run, over
+   the model's two-sorted RootArith (f64 / Cmplx; the libm-backed Complex::sqrt / pow / polar are its oracle operations);
+   Proofs/SrcEqRoots.v proves each regenerated function equal to Model/Roots.v -- laguer / poly_solve / roots as ERASURE
+   lemmas (the exit reasons and the traces of the laguer calls projected away) -- for EVERY RootArith: the float instance with
+   its oracle table (what the correspondence check runs) and the field instance of the theorems above alike. *)
+From OV Require Proofs.SrcEqRoots.
+Theorem model_is_source_C10_Roots : forall RA : RootArith, SrcEqRoots.model_is_source_Roots RA.
+Proof. intros RA. exact (SrcEqRoots.model_is_source_Roots_lemma RA). Qed.
+Check model_is_source_C10_Roots : forall RA : RootArith, SrcEqRoots.model_is_source_Roots RA.
+Print Assumptions model_is_source_C10_Roots.
 
 (* ======================================================================== C15_r2c2.v.txt *)
 (* ---- tie of the model to the source of this run (package r2c2): gen/SrcVectorOps.v is regenerated from
